@@ -106,11 +106,51 @@ def hist : P String := do
       s!"{encSizes r.2.sizeRef} {flist r.1} {encStates (r.2.unflattenX r.1 Xs)}" :: go r.2 rest
   pure (" ".intercalate (toString h.length :: go Coupler.new h))
 
+/-! nested couplers.  Tree encoding (both directions): `L state` | `N <id> <k> tree^k`. -/
+
+partial def tree : P (CTree Float) := do
+  let k ← tok
+  if k == "L" then
+    let X ← state; pure (.leaf X)
+  else if k == "N" then
+    let id ← nat; let cs ← lst tree; pure (.node id cs)
+  else failure
+
+partial def encTree : CTree Float → String
+  | .leaf X => s!"L {encState X}"
+  | .node id cs => " ".intercalate (s!"N {id} {cs.length}" :: cs.map encTree)
+
+def op : P (Op Float) := do
+  let k ← tok
+  if k == "F" then
+    let i ← nat; pure (.flat i)
+  else if k == "U" then
+    let i ← nat; pure (.unflat i)
+  else if k == "V" then
+    let i ← nat; let v ← flts; pure (.unflatWith i v)
+  else failure
+
+def encOut : Out Float → String
+  | .flat v sizes => s!"F {flist v} {" ".intercalate (toString sizes.length :: sizes.map encSizes)}"
+  | .unflat none => "U E"
+  | .unflat (some T) => s!"U {encTree T}"
+  | .bad => "B"
+
+/-- flat.nest forest(list of trees) ops(list) → the answers of the operations, run in that order on ONE world in
+which no Coupler has flattened yet: `F i` = flattenX of tree i (answer: flat vector, then `_sizeRef` of every Coupler
+of tree i in pre-order), `U i` = unflattenX of the vector kept for tree i, `V i v` = unflattenX of the vector v -/
+def nest : P String := do
+  let forest ← lst tree
+  let ops ← lst op
+  let outs := runOps forest World.new ops
+  pure (" ".intercalate (toString outs.length :: outs.map encOut))
+
 def handle (verb : String) : Option (P String) :=
   match verb with
   | "sol.run" => some solRun
   | "sol.runx" => some solRunX
   | "flat.hist" => some hist
+  | "flat.nest" => some nest
   | "flat.rt" => some rt
   | "flat.un" => some un
   | "flat.c" => some coup
